@@ -14,7 +14,7 @@
 // Oracle, per (text, context): no panic; exactly one of (model != nil, err == nil) and (err != nil); an accepted model is
 // complete, i.e. the project's own emitter can write it and writes something (a model the emitter refuses, or writes as the empty
 // text, is "partially built"); blank-only texts are rejected. Boundedness: for each family the ratios t(2n)/t(n) and alloc(2n)/alloc(n) of the three largest sizes stay below 16
-// (polynomial of degree < 4); the time ratio is only looked at when t(n) > 50 ms and is the minimum over 5 repetitions; the
+// (polynomial of degree < 4); time is processor time of the parsing process (not wall clock), its ratio is only looked at when t(n) > 50 ms and is the minimum over 5 repetitions; the
 // allocation ratio is deterministic. A family that runs into the per-input deadline makes the run non-exhaustive, not failing.
 package main
 
@@ -27,6 +27,7 @@ import (
 	"runtime/debug"
 	"strings"
 	"sync"
+	"syscall"
 	"time"
 
 	"github.com/specterops/dawgs/cypher/frontend"
@@ -277,7 +278,7 @@ func main() {
 		"nesting/length families at n = 1..4096. distinct_nontrivial counts distinct texts (exact: texts are sharded by hash) that the project's lexer splits into at least two non-blank tokens.",
 		alphaLen, len(alphabet), len(blanks), map[bool]string{false: "token boundaries", true: "every rune offset"}[run.Tier == core.Thorough], gk))
 	run.Assume("a model is called complete when the project's own emitter (format.RegularQuery) can write it; this is the reading of 'never returns a partially built model without an error'")
-	run.Assume("polynomial boundedness is decided on doubling families by ratios < 16 of allocation (deterministic) and of time (only above 50 ms, minimum of 5 repetitions)")
+	run.Assume("polynomial boundedness is decided on doubling families by ratios < 16 of allocation (deterministic) and of processor time of the parsing process (only above 50 ms, minimum of 5 repetitions)")
 	run.Finish()
 }
 
@@ -406,9 +407,9 @@ func familyChild(spec string) {
 		runtime.GC()
 		var m0, m1 runtime.MemStats
 		runtime.ReadMemStats(&m0)
-		t0 := time.Now()
+		t0 := cpuTime()
 		o := parseOnce(ctxName, text)
-		d := time.Since(t0).Nanoseconds()
+		d := cpuTime() - t0
 		runtime.ReadMemStats(&m1)
 		if i == 0 || d < res.NS {
 			res.NS = d
@@ -421,6 +422,16 @@ func familyChild(spec string) {
 	}
 	b, _ := json.Marshal(res)
 	fmt.Println("RESULT " + string(b))
+}
+
+// cpuTime is the processor time (user + system, nanoseconds) this process has consumed: unlike the wall clock it does
+// not depend on what else the machine is running, so the growth ratios do not either.
+func cpuTime() int64 {
+	var ru syscall.Rusage
+	if err := syscall.Getrusage(syscall.RUSAGE_SELF, &ru); err != nil {
+		return time.Now().UnixNano()
+	}
+	return ru.Utime.Nano() + ru.Stime.Nano()
 }
 
 func measure(name string, n int, ctxName string, reps int, deadline time.Duration) (res famResult, status string) {
